@@ -43,6 +43,9 @@ def alphabet(tier):
     # the same names behind the advertised namespace prefix `/` must behave as the bare names
     ev += [{"s": A, "op": "delete", "m": "/a"}, {"s": A, "op": "delete", "m": "/INBOX"}, {"s": A, "op": "delete", "m": "/a/b"},
            {"s": A, "op": "create", "m": "/z"}, {"s": A, "op": "rename", "m": "/a", "to": "/c"}, {"s": A, "op": "subscribe", "m": "/a/b"}]
+    # names with an all-digit component (what MH takes for a message)
+    ev += [{"s": A, "op": "create", "m": "a/7"}, {"s": A, "op": "create", "m": "a/7/k"}, {"s": A, "op": "rename", "m": "a/b", "to": "inbox/7"},
+           {"s": A, "op": "rename", "m": "a", "to": "42"}]
     ev += [{"s": A, "op": "select", "m": "a"}, {"s": "B", "op": "select", "m": "a/b"}, {"s": A, "op": "append", "m": "a/b"},
            {"s": "env", "op": "restart"}]
     return ev
